@@ -193,10 +193,10 @@ def run(sim, plan):
         for n, seed in plan["sends"]:
             blob = random.Random(seed).randbytes(n)
             if path == "raw":
-                e0 = k.faults.get("epipe", 0)
+                e0 = net.hard_errors.count("app_sender")
                 ok = conn.send_data(blob)
                 results.append((blob, ok))
-                if k.faults.get("epipe", 0) > e0:
+                if net.hard_errors.count("app_sender") > e0:   # raised inside this very call (same thread)
                     hard_errors.append((n, ok))
             else:
                 func = sf.SecsS07F03({"PPID": "p", "PPBODY": var.Binary(blob)})
